@@ -300,7 +300,7 @@ def separator_cases(ctx, rng, factor=1):
         cleaner_case(ctx, pad + "/data/g/q1" + pad)
         cleaner_case(ctx, pad + pad + "x /data/g/q1" + pad + "y" + pad + "\n" + pad)
         n += 2
-    for _ in range(ctx.pick(250, 20000) * min(factor, 3)):
+    for _ in range(ctx.pick(1000, 40000) * min(factor, 3)):
         lines = []
         for _ in range(rng.randint(1, 6)):
             ln = gen_line(rng, 0.1)
